@@ -392,6 +392,16 @@ def uniform(ctx, name, ptypes, consts, tpaths, op, operand, extra=None, extra_al
     else:
       ctx.ob('UNIFORM/once/' + name, fi, hits[0].stmt if hits else fi.node, True, '%s receives the operation at one site' % cov.path_text(p),
              construct='%s: %s %s %s exactly once' % (tag, cov.path_text(p), wop, wopd))
+    # whatever its value: a shift guarded by a test of the very field it moves (`if s.total_time: s.total_time += d`) leaves the
+    # events whose field is zero where they were while everything else moves.  (A guarded multiplication of zero is harmless.)
+    if wop == 'aug:Add':
+      for w in hits:
+        tt = norm_text(w.stmt.targets[0] if isinstance(w.stmt, ast.Assign) else getattr(w.stmt, 'target', w.stmt))
+        g = [t for t in U.enclosing_tests(fi.node, w.stmt) if tt in norm_text(t[0] if isinstance(t, tuple) else t)]
+        if g:
+          t0 = g[0][0] if isinstance(g[0], tuple) else g[0]
+          ctx.ob('UNIFORM/whatever-the-value/' + name, fi, w.stmt, False, '%s: `%s` runs only when `%s`: the field is moved for some of its values and left alone for the others (a total_time / time of 0 stays 0 '
+                 'while every event of the sequence moves by %s)' % (tag, norm_text(w.stmt)[:60], norm_text(t0)[:50], wopd), construct='%s: %s moves whatever its value' % (tag, cov.path_text(p)), definite=True)
     ctx.ob('UNIFORM/' + name, fi, hits[0].stmt if hits else fi.node, ok,
            ('%s receives %s %s' % (cov.path_text(p), wop, wopd)) if ok else
            ('%s: time-bearing field %s (from music.proto) %s' % (
